@@ -44,7 +44,7 @@ Proof. reflexivity. Qed.
 Lemma pinned_body_ConvertFile : gen_body_ConvertFile =
   ["result := &ir.File{ PkgPath: conv.pkg.Path(), }";
    "conv.dslPkgname = ""dsl""";
-   "for _, imp := range f.Imports { importPath, err := strconv.Unquote(imp.Path.Value) if err != nil { panic(conv.errorf(imp, ""unquote %s import path: %s"", imp.Path.Value, err)) } if importPath == ""github.com/quasilyte/go-ruleguard/dsl"" { if imp.Name != nil { conv.dslPkgname = imp.Name.Name } } switch importPath { case ""fmt"", ""strings"", ""strconv"": conv.addCustomImport(result, importPath) } }";
+   "for _, imp := range f.Imports { importPath, err := strconv.Unquote(imp.Path.Value) if err != nil { panic(conv.errorf(imp, ""unquote %s import path: %s"", imp.Path.Value, err)) } if importPath == ""github.com/quasilyte/go-ruleguard/dsl"" { if imp.Name != nil { conv.dslPkgname = imp.Name.Name } } switch importPath { case ""fmt"", ""strings"", ""strconv"": if conv.usedByCustomDecls(f, importPath) { conv.addCustomImport(result, importPath) } } }";
    "for _, decl := range f.Decls { funcDecl, ok := decl.(*ast.FuncDecl) if !ok { genDecl := decl.(*ast.GenDecl) if genDecl.Tok != token.IMPORT { conv.addCustomDecl(result, decl) } continue } if funcDecl.Body == nil { panic(conv.errorf(funcDecl, ""%s function has no body"", funcDecl.Name)) } if funcDecl.Name.String() == ""init"" { conv.convertInitFunc(result, funcDecl) continue } if conv.isMatcherFunc(funcDecl) { for i := range result.RuleGroups { if result.RuleGroups[i].Name == funcDecl.Name.String() { panic(conv.errorf(funcDecl.Name, ""duplicated rule group %s"", funcDecl.Name)) } } result.RuleGroups = append(result.RuleGroups, *conv.convertRuleGroup(funcDecl)) } else { conv.addCustomDecl(result, funcDecl) } }";
    "return result"].
 Proof. reflexivity. Qed.
@@ -98,6 +98,14 @@ Definition file_verdict (gs : list group) : nat :=
   let impl := List.concat (gen_conv_groups FUEL gen_reset_per_group [] gs) in
   let spec := List.concat (map (fun g => spec_stmts (g_matcher g) [] (g_stmts g)) gs) in
   if existsb is_none impl then 0 else if olist_eqb impl spec then 1 else if existsb is_none spec then 3 else 2.
+
+(* a constant spelling against its plain literal (files without helpers): 0: a rule of the spelled file is rejected; 1: the
+   rules of both files convert to the same expressions; 2: they convert to different ones *)
+Definition plain_rules (gs : list group) : list (option fexpr) :=
+  List.concat (map (fun g => spec_stmts (g_matcher g) [] (g_stmts g)) gs).
+Definition const_verdict (a b : list group) : nat :=
+  let ra := plain_rules a in
+  if existsb is_none ra then 0 else if olist_eqb ra (plain_rules b) then 1 else 2.
 
 (* expandMacro: a helper that is reached again while it is being expanded is rejected (calls are resolved by name: a helper named
    after something it calls); safe arguments only; astcopy; identifiers in expression position (not selected fields, not names the
